@@ -109,11 +109,16 @@ Record wstep (s : pstate) (g : ghost) (s' : pstate) (g' : ghost) : Prop := mkWst
   ws_len : r_len (p_r s') = r_len (p_r s);
   ws_typed : typed (p_tree s) -> typed (p_tree s');
   ws_nil : forall y, glive g y -> isflag s y = false -> kids g y = [] -> kids g' y = [];
-  ws_kids : forall y, glive g y -> isflag s y = false -> ins (zero s' g') (kids g y) (kids g' y)
+  ws_kids : forall y, glive g y -> isflag s y = false -> ins (zero s' g') (kids g y) (kids g' y);
+  ws_pre : forall y a0 a1 rest, glive g y -> isflag s a0 = false -> isflag s a1 = false ->
+    kids g y = a0 :: a1 :: rest -> exists rest', kids g' y = a0 :: a1 :: rest'
 }.
 
 Lemma wstep_refl s g : wstep s g s g.
-Proof. constructor; auto. apply gext_refl. apply keep_refl. intros. apply ins_refl. Qed.
+Proof.
+  constructor; auto; [apply gext_refl|apply keep_refl|intros; apply ins_refl|].
+  intros y a0 a1 rest _ _ _ Hk. exists rest. exact Hk.
+Qed.
 
 Lemma isflag_keep P s g s' y : WI s g -> keep P s g s' -> p_handle s' = p_handle s -> glive g y -> isflag s' y = isflag s y.
 Proof.
@@ -131,13 +136,13 @@ Qed.
 
 Lemma zero_step s g s' g' x : WI s g -> wstep s g s' g' -> zero s g x -> zero s' g' x.
 Proof.
-  intros H [A B C D T E F] (Hl & Hk & Hf). split; [apply (ge_live _ _ A); exact Hl|]. split; [apply E; auto|].
+  intros H [A B C D T E F G] (Hl & Hk & Hf). split; [apply (ge_live _ _ A); exact Hl|]. split; [apply E; auto|].
   rewrite (isflag_keep _ _ _ _ _ H B C Hl). exact Hf.
 Qed.
 
 Lemma wstep_trans s g s1 g1 s2 g2 : WI s g -> WI s1 g1 -> wstep s g s1 g1 -> wstep s1 g1 s2 g2 -> wstep s g s2 g2.
 Proof.
-  intros H H1 S1 S2. pose proof S1 as [A1 B1 C1 D1 T1 E1 F1]. pose proof S2 as [A2 B2 C2 D2 T2 E2 F2]. constructor.
+  intros H H1 S1 S2. pose proof S1 as [A1 B1 C1 D1 T1 E1 F1 G1]. pose proof S2 as [A2 B2 C2 D2 T2 E2 F2 G2]. constructor.
   - eapply gext_trans; eauto.
   - eapply keep_trans; eauto. apply (ge_live _ _ A1).
   - congruence.
@@ -148,12 +153,20 @@ Proof.
   - intros y Hy Hf. eapply ins_trans.
     + eapply ins_mono; [|apply (F1 y Hy Hf)]. intros x Hx. eapply zero_step; eauto.
     + apply F2; [apply (ge_live _ _ A1); exact Hy|]. rewrite (isflag_keep _ _ _ _ _ H B1 C1 Hy). exact Hf.
+  - intros y a0 a1 rest Hy Hf0 Hf1 Hk.
+    pose proof (R_gwf _ _ (fi_R _ _ H)) as Hwf.
+    assert (Hl0 : glive g a0) by (apply (Hwf y a0); rewrite Hk; left; reflexivity).
+    assert (Hl1 : glive g a1) by (apply (Hwf y a1); rewrite Hk; right; left; reflexivity).
+    destruct (G1 y a0 a1 rest Hy Hf0 Hf1 Hk) as (rest1 & Hk1).
+    apply (G2 y a0 a1 rest1); [apply (ge_live _ _ A1); exact Hy| | |exact Hk1].
+    + rewrite (isflag_keep _ _ _ _ _ H B1 C1 Hl0). exact Hf0.
+    + rewrite (isflag_keep _ _ _ _ _ H B1 C1 Hl1). exact Hf1.
 Qed.
 
 Lemma dcnt_step s g s' g' : WI s g -> wstep s g s' g' ->
   (forall x n, dcnt s g x n -> dcnt s' g' x n) /\ (forall l n, dcl s g l n -> dcl s' g' l n).
 Proof.
-  intros H [A B C D T E F]. apply dcnt_dcl_ind.
+  intros H [A B C D T E F G]. apply dcnt_dcl_ind.
   - intros x Hx Hf Hn Hnp. apply dc_flag.
     + apply (ge_live _ _ A). exact Hx.
     + rewrite (isflag_keep _ _ _ _ _ H B C Hx). exact Hf.
@@ -262,6 +275,14 @@ Proof.
               split; [exact Z1|]. split; [exact Z2|apply nfrow_unflagged; exact Z3].
            ++ destruct (F y Hy) as (_ & Hex); [intros (_ & Hin); contradiction|].
               rewrite Hex; [apply ins_refl|]. intros <-. congruence.
+        -- intros y a0 a1 rest Hy Hf0 Hf1 Hky. destruct (in_dec N.eq_dec x (kids g y)) as [Hin|Hnin].
+           ++ destruct (in_split _ _ Hin) as (l1 & tl & Ek). destruct (Fi y l1 tl Ek) as (new & En & _). rewrite En.
+              rewrite Hky in Ek. destruct l1 as [|b0 [|b1 l1']]; cbn [app] in Ek.
+              ** exfalso. injection Ek as E0 _. subst a0. congruence.
+              ** exfalso. injection Ek as _ E1 _. subst a1. congruence.
+              ** injection Ek as E0 E1 _. subst b0 b1. cbn [app]. eexists. reflexivity.
+           ++ destruct (F y Hy) as ((extra & Eex) & _); [intros (_ & Hin); contradiction|].
+              rewrite Eex, Hky. cbn [app]. eexists. reflexivity.
       * split; [lia|exact T].
   - inversion Hd as [x' Hx Hf Hn Hnp|x' n' Hx Hf Hk]; subst; [congruence|].
     rewrite (WI_first _ _ _ _ H Hoo Hlo).
@@ -356,6 +377,55 @@ Proof. reflexivity. Qed.
 Lemma groot_gext g g' x : gext g g' -> glive g x -> groot g x -> groot g' x.
 Proof. intros G Hl Hr p Hin. apply (Hr p). apply (ge_old _ _ G p x Hin Hl). Qed.
 
+(** the tail with an invariant [K] of the tree that the walk, the moves of attachSiblingsAsArgs and the rewriting of
+    name-path-or-method-call objects preserve: when the tail succeeds the root is still a live root, the []byte typing and [K] hold *)
+Theorem deferred_tail_post : forall (K : T -> ghost -> Prop), Kmove K -> Kupd K ->
+  forall f4 pf f5 f6 n s g,
+  R (p_tree s) g -> info_valid (p_tree s) -> rok (p_r s) -> Forall (glive g) (p_scopeStack s) -> IV s ->
+  glive g 0 -> groot g 0 -> TM NoX s g -> typed (p_tree s) -> dcnt s g 0 n ->
+  lp s + n * (8 * r_len (p_r s) + 3) + 4 <= InvalidIndex ->
+  (forall s1 g1, parseDeferredBlocks f4 pf 0 s = Ok (ROk, s1) -> WI s1 g1 -> wstep s g s1 g1 -> TM NoX s1 g1 -> K (p_tree s1) g1) ->
+  match parse_tail f4 pf f5 f6 s with
+  | Ok (b, s') => exists g', R (p_tree s') g' /\ info_valid (p_tree s') /\ pool_ok (p_tables s') (p_tree s') /\
+      (b = true -> glive g' 0 /\ groot g' 0 /\ typed (p_tree s') /\ K (p_tree s') g')
+  | Panic => False
+  | OutOfFuel => True
+  end.
+Proof.
+  intros K K_move K_upd f4 pf f5 f6 n s g HR Hi Hrk Hsc I0 H0 Hroot HTM Hty Hd Hcap HKw.
+  assert (H : WI s g) by (constructor; auto).
+  assert (W : wp True (parse_tail f4 pf f5 f6) s (fun b s' => exists g',
+            R (p_tree s') g' /\ info_valid (p_tree s') /\ pool_ok (p_tables s') (p_tree s') /\
+            (b = true -> glive g' 0 /\ groot g' 0 /\ typed (p_tree s') /\ K (p_tree s') g'))).
+  { unfold parse_tail.
+    apply (wp_bind_inv tbls _ _ _ _ _ I0); [apply (proj1 (hoare_deferred tbls f4 pf))|].
+    eapply wp_weaken; [apply (wp_and_pc _ _ _ _ (fun r4 s1 => parseDeferredBlocks f4 pf 0 s = Ok (r4, s1))
+                                (proj1 (DWL_all f4) pf 0 n s g H I0 H0 HTM Hd Hcap))|auto|].
+    { intros a s1 E. exact E. }
+    intros r4 s1 ((g1 & H1 & S1 & L1 & T1) & Eq4) I1.
+    assert (Hp1 : pool_ok (p_tables s1) (p_tree s1)) by (rewrite (inv_tbls _ _ I1); apply (inv_pool _ _ I1)).
+    destruct (pres_eqb r4 ROk) eqn:E4; cbn [negb].
+    2:{ apply wp_ret. exists g1. split; [apply (fi_R _ _ H1)|]. split; [apply (fi_info _ _ H1)|]. split; [exact Hp1|discriminate]. }
+    assert (r4 = ROk) by (destruct r4; try discriminate; reflexivity). subst r4.
+    pose proof (ws_g _ _ _ _ S1) as G1.
+    assert (Hl1 : glive g1 0) by (apply (ge_live _ _ G1); exact H0).
+    assert (Hroot1 : groot g1 0) by (eapply groot_gext; eauto).
+    assert (TI1 : TI s1 g1) by (constructor; [apply (fi_R _ _ H1)|apply (fi_info _ _ H1)|exact Hp1]).
+    assert (HK1 : K (p_tree s1) g1) by (apply (HKw s1 g1 Eq4 H1 S1 (T1 eq_refl))).
+    apply wp_bind. eapply wp_weaken; [apply (proj1 (calls_all K K_move K_upd f5) 0 s1 g1 None [] [] TI1 (ws_typed _ _ _ _ S1 Hty) Hl1 Hl1 (conj Hroot1 eq_refl) HK1)|auto|].
+    intros r5 s2 (g2 & m2 & TI2 & Hrel2 & _ & Hroots2 & Hty2 & HK2).
+    destruct (pres_eqb r5 ROk); cbn [negb].
+    2:{ apply wp_ret. exists g2. destruct TI2 as [A B C]. split; [exact A|]. split; [exact B|]. split; [exact C|discriminate]. }
+    assert (Hl2 : glive g2 0) by (apply (reloc_glive _ _ _ 0 Hrel2); exact Hl1).
+    apply wp_bind. eapply wp_weaken; [apply (proj1 (nonNamed_all K K_move f6) 0 s2 g2 None [] [] TI2 Hl2 (conj (Hroots2 0 Hroot1) eq_refl) HK2)|auto|].
+    intros r6 s3 (g3 & m3 & TI3 & Hrel3 & _ & Hroots3 & Hpf3 & HK3).
+    destruct (pres_eqb r6 ROk); cbn [negb]; apply wp_ret; exists g3; destruct TI3 as [A B C];
+      (split; [exact A|]; split; [exact B|]; split; [exact C|]); [|discriminate].
+    intros _. split; [apply (reloc_glive _ _ _ 0 Hrel3); exact Hl2|]. split; [apply Hroots3; apply Hroots2; exact Hroot1|].
+    split; [eapply typed_pframe; eauto|exact HK3]. }
+  unfold wp in W. destruct (parse_tail f4 pf f5 f6 s) as [[b s']| |]; auto.
+Qed.
+
 Theorem deferred_tail_never_panics : forall f4 pf f5 f6 n s g,
   R (p_tree s) g -> info_valid (p_tree s) -> rok (p_r s) -> Forall (glive g) (p_scopeStack s) -> IV s ->
   glive g 0 -> groot g 0 -> TM NoX s g -> typed (p_tree s) -> dcnt s g 0 n ->
@@ -367,29 +437,9 @@ Theorem deferred_tail_never_panics : forall f4 pf f5 f6 n s g,
   end.
 Proof.
   intros f4 pf f5 f6 n s g HR Hi Hrk Hsc I0 H0 Hroot HTM Hty Hd Hcap.
-  assert (H : WI s g) by (constructor; auto).
-  assert (W : wp True (parse_tail f4 pf f5 f6) s (fun _ s' => exists g',
-            R (p_tree s') g' /\ info_valid (p_tree s') /\ pool_ok (p_tables s') (p_tree s'))).
-  { unfold parse_tail.
-    apply (wp_bind_inv tbls _ _ _ _ _ I0); [apply (proj1 (hoare_deferred tbls f4 pf))|].
-    eapply wp_weaken; [apply (proj1 (DWL_all f4) pf 0 n s g H I0 H0 HTM Hd Hcap)|auto|].
-    intros r4 s1 (g1 & H1 & S1 & L1 & T1) I1.
-    assert (Hp1 : pool_ok (p_tables s1) (p_tree s1)) by (rewrite (inv_tbls _ _ I1); apply (inv_pool _ _ I1)).
-    destruct (pres_eqb r4 ROk) eqn:E4; cbn [negb].
-    2:{ apply wp_ret. exists g1. split; [apply (fi_R _ _ H1)|]. split; [apply (fi_info _ _ H1)|exact Hp1]. }
-    pose proof (ws_g _ _ _ _ S1) as G1.
-    assert (Hl1 : glive g1 0) by (apply (ge_live _ _ G1); exact H0).
-    assert (Hroot1 : groot g1 0) by (eapply groot_gext; eauto).
-    assert (TI1 : TI s1 g1) by (constructor; [apply (fi_R _ _ H1)|apply (fi_info _ _ H1)|exact Hp1]).
-    apply wp_bind. eapply wp_weaken; [apply (proj1 (calls_all f5) 0 s1 g1 None [] [] TI1 (ws_typed _ _ _ _ S1 Hty) Hl1 Hl1 (conj Hroot1 eq_refl))|auto|].
-    intros r5 s2 (g2 & m2 & TI2 & Hrel2 & _ & Hroots2 & _).
-    destruct (pres_eqb r5 ROk); cbn [negb].
-    2:{ apply wp_ret. exists g2. destruct TI2 as [A B C]. auto. }
-    assert (Hl2 : glive g2 0) by (apply (reloc_glive _ _ _ 0 Hrel2); exact Hl1).
-    apply wp_bind. eapply wp_weaken; [apply (proj1 (nonNamed_all f6) 0 s2 g2 None [] [] TI2 Hl2 (conj (Hroots2 0 Hroot1) eq_refl))|auto|].
-    intros r6 s3 (g3 & m3 & TI3 & _).
-    destruct (pres_eqb r6 ROk); cbn [negb]; apply wp_ret; exists g3; destruct TI3 as [A B C]; auto. }
-  unfold wp in W. destruct (parse_tail f4 pf f5 f6 s) as [[b s']| |]; auto.
+  pose proof (deferred_tail_post KT KT_move KT_upd f4 pf f5 f6 n s g HR Hi Hrk Hsc I0 H0 Hroot HTM Hty Hd Hcap (fun _ _ _ _ _ _ => I)) as W.
+  destruct (parse_tail f4 pf f5 f6 s) as [[b s']| |]; auto.
+  destruct W as (g' & A & B & C & _). exists g'. auto.
 Qed.
 End WalkAll.
 
